@@ -11,6 +11,8 @@ pub struct Case {
     /// fault kinds that actually changed the bytes, in order
     pub faults: Vec<String>,
     pub base_type: String,
+    /// nesting depth for nest() cases
+    pub depth: Option<usize>,
 }
 
 fn head(major: u8, n: u64) -> Vec<u8> {
@@ -286,14 +288,17 @@ pub fn gen_nest(rng: &mut Rng, cap: usize) -> Case {
     let kind = rng.below(NEST_KINDS.len());
     let sig0: &[u8] = &[0x83, 0x40, 0xa0, 0x40];
     let rcpt0: &[u8] = &[0x83, 0x40, 0xa0, 0xf6];
+    let drawn = std::cell::Cell::new(0usize);
     let depth = |rng: &mut Rng, per_level: usize| -> usize {
         let max = (cap / per_level).max(2) as u64;
         // half the cases hover around the limits that exist (ciborium's 256, any COSE-level bound)
-        if rng.bool() {
-            rng.range(1, 300.min(max as usize))
-        } else {
-            rng.log_uniform(1, max) as usize
-        }
+        let d = match rng.below(4) {
+            0 => rng.range(1, 40.min(max as usize)),
+            1 => rng.range(1, 300.min(max as usize)),
+            _ => rng.log_uniform(1, max) as usize,
+        };
+        drawn.set(d);
+        d
     };
     let (bytes, ty): (Vec<u8>, &str) = match kind {
         0 => {
@@ -380,7 +385,43 @@ pub fn gen_nest(rng: &mut Rng, cap: usize) -> Case {
         _ => {
             // wide rather than deep: many siblings (signers, recipients, keys, extra parameters)
             let n = rng.log_uniform(1, (cap / 8).max(2) as u64) as usize;
-            match rng.below(4) {
+            match rng.below(8) {
+                4 => {
+                    // array of n counter signatures in a header
+                    let n = n.min(cap / 5);
+                    let mut o = vec![0xa1, 0x07];
+                    o.extend(head(4, n.max(2) as u64));
+                    for _ in 0..n.max(2) {
+                        o.extend_from_slice(sig0);
+                    }
+                    carry_header(rng, &o)
+                }
+                5 => {
+                    // n critical labels
+                    let mut o = vec![0xa1, 0x02];
+                    o.extend(head(4, n as u64));
+                    for i in 0..n {
+                        o.push(if i % 2 == 0 { 0x01 } else { 0x60 });
+                    }
+                    carry_header(rng, &o)
+                }
+                6 => {
+                    // KDF context with n supplementary private info strings
+                    let mut o = head(4, 4 + n as u64);
+                    o.extend([0x01, 0x83, 0xf6, 0xf6, 0xf6, 0x83, 0xf6, 0xf6, 0xf6, 0x82, 0x00, 0x40]);
+                    o.resize(o.len() + n, 0x40);
+                    (o, "CoseKdfContext")
+                }
+                7 => {
+                    // n claims
+                    let n = n.min(cap / 8);
+                    let mut o = head(5, n as u64);
+                    for i in 0..n {
+                        o.extend(head(1, 65536 + i as u64));
+                        o.push(0x00);
+                    }
+                    (o, "ClaimsSet")
+                }
                 0 => {
                     let mut o = vec![0x84, 0x40, 0xa0, 0xf6];
                     o.extend(head(4, n as u64));
@@ -416,7 +457,7 @@ pub fn gen_nest(rng: &mut Rng, cap: usize) -> Case {
             }
         }
     };
-    Case { bytes, faults: vec![NEST_KINDS[kind].to_string()], base_type: ty.to_string() }
+    Case { bytes, faults: vec![NEST_KINDS[kind].to_string()], base_type: ty.to_string(), depth: Some(drawn.get()) }
 }
 
 // ------------------------------------------------------------------------------------------
@@ -648,7 +689,7 @@ pub fn gen_case(rng: &mut Rng, cap: usize) -> Case {
     }
     if mode == 4 {
         let n = rng.range(0, 64);
-        return Case { bytes: rng.bytes(n), faults: vec!["random-bytes".into()], base_type: "none".into() };
+        return Case { bytes: rng.bytes(n), faults: vec!["random-bytes".into()], base_type: "none".into(), depth: None };
     }
     let ty = MESSAGE_TYPES[rng.below(MESSAGE_TYPES.len())];
     let tagged = TAGGABLE.contains(&ty) && rng.chance(1, 3);
@@ -708,5 +749,5 @@ pub fn gen_case(rng: &mut Rng, cap: usize) -> Case {
     if bytes.len() > cap {
         bytes.truncate(cap);
     }
-    Case { bytes, faults, base_type: ty.to_string() }
+    Case { bytes, faults, base_type: ty.to_string(), depth: None }
 }
